@@ -1,5 +1,5 @@
 """C06 - noise between values never changes them; the four --on-error policies do what they say."""
-import random
+import random, re
 from vcommon import *
 from streamlib import *
 import gen_json as G
@@ -19,7 +19,9 @@ HEADER_LINES = {"text": 1, "csv": 1}
 # tokens that begin like a value but are none and end at the next blank (beyond the letter of the quantifier, inside the statement: bytes that are
 # not part of any JSON value); each is reported at least once and leaves the values around it alone
 # (a word cut short right before a blank is left out: its diagnostic quotes the blank, and a quoted line break would split the report over two lines)
-MALFORMED_SCALARS = [b"-", b"1e999", b"-e", b"1e", b"1e+", b"falsy", b"trux", b"nul.", b"-a", b"-E5", b"-1e999", b"-}"]
+MALFORMED_SCALARS = [b"-", b"1e999", b"-e", b"1e", b"1e+", b"falsy", b"trux", b"nul.", b"-a", b"-E5", b"-1e999", b"-}",
+                     # strings that go wrong at an escape (the text up to there was read as part of a string that never came to be)
+                     b'"ab\\q', b'"\\x', b'"k\\u12G', b'"abc\\z', b'"\\u00zz']
 
 
 # what some producers put in front of a text: byte order marks, whole or cut short - bytes that belong to no value, like any others
